@@ -362,7 +362,7 @@ class Contract:
     """per-function facts, written after reading the code (tables/contracts.py)"""
 
     def __init__(self, buffers=None, requires=None, ensures=None, onepast=None, notes="", literals=None,
-                 foreign=None, invariants=None, axioms=None, ret=None, call_requires=None, objects=None):
+                 foreign=None, invariants=None, axioms=None, ret=None, call_requires=None, objects=None, accessor_model=None):
         self.buffers = buffers or {}    # buffer term name -> bound expression (term name, '@entry' allowed)
         self.requires = requires or []  # [(a, b, c)] on parameter names: a - b <= c at entry
         self.ensures = ensures or {}    # by-ref param name -> list of ('inc',) | ('le', boundname)
@@ -377,6 +377,9 @@ class Contract:
         #   {"set": (getter, arg index)}                               getter() == argument afterwards
         #   {"havoc": [getters], "inc": [getters], "le": [(getter, bound)], "implies": [(flag getter, getter, bound)]}
         self.objects = objects or {}
+        # name of the size getter ("Length" / "Size") when First()/Last()/End() of containers are to be read as
+        # Storage(), Storage() + size - 1, Storage() + size (justified by the accessor bodies, checked by the rule that sets it)
+        self.accessor_model = accessor_model
         self.notes = notes
 
 
@@ -661,6 +664,11 @@ class Zone(dataflow.Client):
                 if "sint" in (ta, tb) and not ("cv" in fn.nodes[fn.strip_casts(a)] or "cv" in fn.nodes[fn.strip_casts(b)]):
                     return None
             la, lb = self.lin(st, a), self.lin(st, b)
+            if (la is None or lb is None) and fn.nodes[fn.strip_casts(a)].get("tk") == "ptr" and fn.nodes[fn.strip_casts(b)].get("tk") == "ptr":
+                # two pointers into the same buffer compare like their offsets
+                pa, pb = self.ptr_form(st, a), self.ptr_form(st, b)
+                if pa is not None and pb is not None and pa[0] == pb[0]:
+                    la, lb = pa[1], pb[1]
             if la is None or lb is None:
                 return None
             if not truth:
@@ -940,6 +948,15 @@ class Zone(dataflow.Client):
             st.add_lin_le0(d)
             st.add_lin_le0(Lin({}) - d)
 
+    def term_of_getter(self, recv_nid, getter):
+        """term of  <receiver>.<getter>()  as term_of would name it for a call node"""
+        fn = self.fn
+        rs = fn.strip(recv_nid)
+        rt = self.term_of(rs)
+        if rt and (rt.startswith("v:") or rt.startswith("f:")):
+            return "g:%s|%s.%s()" % (rt, fn.text(rs), getter)
+        return None
+
     def ptr_form(self, st, nid, depth=0):
         """(buffer term, Lin offset) if expression is buffer + linear"""
         fn = self.fn
@@ -972,6 +989,17 @@ class Zone(dataflow.Client):
         t = self.term_of(nid)
         if t is None:
             if n["k"] in ("CallExpr", "CXXMemberCallExpr") and not fn.call_args(nid):
+                # storage accessors of the library's containers: First() == Storage(), Last() == Storage() + Length() - 1,
+                # End() == Storage() + Length()/Size()
+                nm = fn.call_simple_name(nid)
+                rc = fn.call_receiver(nid)
+                if rc is not None and nm in ("First", "Last", "End") and self.contract.accessor_model:
+                    base = fn.text(fn.strip(rc))
+                    lt = self.term_of_getter(rc, self.contract.accessor_model)
+                    if nm == "First":
+                        return ("x:%s.Storage()" % base, Lin())
+                    if lt is not None:
+                        return ("x:%s.Storage()" % base, Lin({lt: 1}, -1 if nm == "Last" else 0))
                 return ("x:" + fn.text(nid), Lin())
             if n["k"] == "DependentScopeDeclRefExpr" or (n["k"] in ("DeclRefExpr", "MemberExpr") and n.get("static")) or \
                     (n["k"] == "CXXDependentScopeMemberExpr" and n.get("qual")):
